@@ -379,8 +379,11 @@ class Ctx:
             "violations": len(self.violations),
         }
         if not self.replay:
-            os.makedirs(os.path.join(VERIF, "evidence"), exist_ok=True)
-            with open(os.path.join(VERIF, "evidence", self.prop + ".json"), "w") as f:
+            # evidence/ describes runs against /repo itself; a development run against a scratch worktree
+            # (VERIF_REPO) writes under build/ (ignored) so that it never replaces committed evidence
+            evdir = os.path.join(VERIF, "evidence") if REPO == "/repo" else os.path.join(VERIF, "build", "evidence-scratch")
+            os.makedirs(evdir, exist_ok=True)
+            with open(os.path.join(evdir, self.prop + ".json"), "w") as f:
                 json.dump(ev, f, indent=1, sort_keys=True, default=str)
         if self.parent is not None:   # part of another check: the parent prints the verdict lines
             log("%s (included in %s) %s: states=%d impl-traces=%d violations=%d known=%d wall=%.0fs" % (
